@@ -48,7 +48,7 @@ func runCase2(f []string) (string, bool) {
 	case "hist":
 		return runHist(f), true
 	}
-	return "", false
+	return runCase3(f)
 }
 
 func runFrame(f []string) string {
@@ -332,7 +332,7 @@ func oracleCase2(f []string) (string, bool) {
 		}
 		return runHist(g), true
 	}
-	return "", false
+	return oracleCase3(f)
 }
 
 // jsonStringOracle: what encoding/json decodes for the string token at the start of data
